@@ -2,7 +2,7 @@
    The definitions FL_dispatch / FL_dens_dispatch / fsign are GENERATED from /repo on every run
    (Gen/Limiters.v); the closed forms sp_table are hand-written in Spec/LimiterSpec.v. *)
 From Coq Require Import Reals String List Floats.
-From PFV Require Import OField KOps Limiters LimiterSpec LimiterThy F64Ops FloatThy FloatLimThy FloatLim2Thy.
+From PFV Require Import OField KOps Limiters LimiterSpec LimiterThy F64Ops FloatThy FloatLimThy FloatLim2Thy FloatLim3Thy FloatLim4Thy FloatAllThy.
 Local Open Scope R_scope.
 
 (* every named limiter evaluates the published closed form, for every real r *)
@@ -62,8 +62,8 @@ Print Assumptions C13_fsign_ratio_bounded.
 (* ---- binary64 level: the regenerated definitions evaluated with Coq's primitive floats (FOps), i.e. the IEEE 754 arithmetic numpy
    performs; `fin k f` = f is a finite float and |f| <= 2^k (Theory/FloatThy.v, on Flocq's specification of primitive floats).
    The full statement "every named limiter returns a finite value for every finite r" is FALSE in binary64 (refuted below: r*r
-   overflows); proved is the part below.  Not proved: CHARM and ospre (their denominators need rounding-error bounds / exact-cancellation facts, not only
-   monotonicity of rounding) -- hence _partial; HCUS and HQUICK have their own theorem below. *)
+   overflows); proved is the part below.  The theorem _partial gives, for 12 names, finiteness with the bound 2^1002 and no condition on eps; C13_float_finite_up_to_2p500 below
+   covers all 16 names (finite guard 0 < eps <= 1). *)
 Theorem C13_float_finite_partial : forall name eps r, In name float_safe_names -> fin 500 r ->
   fin 1002 (FL_dispatch FOps name eps r).
 Proof. exact float_safe_dispatch. Qed.
@@ -81,6 +81,16 @@ Theorem C13_float_finite_HCUS_HQUICK : forall eps r, fin 0 eps -> 0 < FR eps -> 
   ffin (FL_HCUS FOps eps r) /\ ffin (FL_HQUICK FOps eps r).
 Proof. intros eps r He Hp Hr. split; [exact (float_HCUS eps r He Hp Hr)|exact (float_HQUICK eps r He Hp Hr)]. Qed.
 Print Assumptions C13_float_finite_HCUS_HQUICK.
+(* ALL sixteen names, and every unknown name: finite for every float |r| <= 2^500 and every finite guard 0 < eps <= 1.  (ospre: its
+   denominator r (r + 1) + 1 is >= 1/2 in floating point by monotonicity of rounding alone; CHARM: for r <= 0 the numerator is exactly zero and
+   rnd(r + 1)^2 cannot underflow to zero, because a float of magnitude >= 1/2 is a multiple of 2^-53.)  This is the property's "finite value
+   for every finite gradient ratio" restricted to |r| <= 2^500; beyond 2^512 it is false (C13_float_overflow_refuted). *)
+Theorem C13_float_finite_up_to_2p500 : forall name eps r, fin 0 eps -> 0 < FR eps -> fin 500 r ->
+  PrimFloat.is_finite (FL_dispatch FOps name eps r) = true.
+Proof.
+  intros name eps r He Hp Hr. rewrite Flocq.IEEE754.PrimFloat.is_finite_equiv. exact (float_all_dispatch name eps r He Hp Hr).
+Qed.
+Print Assumptions C13_float_finite_up_to_2p500.
 Example C13_float_default_eps_ok : fin 0 (eps_default FOps) /\ 0 < FR (eps_default FOps).
 Proof. exact eps_default_ok. Qed.
 (* the guard of the gradient ratios never overflows *)
